@@ -1,9 +1,11 @@
 """
 C16 — template resolution and environment contract hold for all types and templates.
 
-Proof: lean/NunavutVerif/Properties/C16.lean over lean/NunavutVerif/Model/Resolve.lean; the class table, the
-instance-test enumeration and the reserved names are regenerated from the running PyDSDL / the tree under check by
-translate/pydsdl_classes.py on every run.
+Proof: lean/NunavutVerif/Properties/C16.lean over lean/NunavutVerif/Model/{Resolve,ResolveDirs,EnvCtor}.lean; the class table,
+the instance-test enumeration (roots OBSERVED) and the reserved names are regenerated from the running PyDSDL / the tree under
+check by translate/pydsdl_classes.py, the construction of the environment (every assignment to `_allow_replacements`, the
+statement order of CodeGenEnvironment.__init__ and of the generators, the per-language instance tests of the finished
+environment) by translate/env_ctor.py (Python ast), on every run.
 
 Tie (real implementation in-process versus the compiled `resolve` driver):
   A  generated table / instance-test map versus an independent walk of the running PyDSDL and the real
@@ -13,11 +15,19 @@ Tie (real implementation in-process versus the compiled `resolve` driver):
   C  `type_to_template` on real `DSDLTemplateLoader` objects over a scratch user directory and a scratch package,
      for every PyDSDL class x assignments of its chain to {none, user, built-in, both}, cold and after warm-up
      look-ups, loaders with both / only one source, final lookup cache included;
+  C2 loaders over a LIST of 1-3 user directories (model: union listing `sorted(set(...))`, first-hit get_source, get_templates
+     over every directory): every class x (class, ancestor) x every distribution of the two templates over the directories and
+     the package, random distributions over whole chains, FIND_ALL / FIND_FIRST / no package; `get_templates()` against
+     resolution; `DSDLTemplateLoader.__init__` (which Jinja loaders exist);
   D  synthetic class hierarchies (multiple inheritance, shared names, duplicate stems) for the search loop itself;
   E  `get_source` with several user directories and a package;
   F  `env.tests[...]` of a real `DSDLCodeGenerator` on PyDSDL instances obtained by parsing generated DSDL;
   G  colliding / reserved / fresh additional filters, tests and globals through the real `DSDLCodeGenerator`
-     constructor and the real `CodeGenEnvironmentBuilder` (with and without the allow flag).
+     constructor and the real `CodeGenEnvironmentBuilder` (with and without the allow flag), crossed with the LOADER
+     CONFIGURATION the environment is created over (no templates_dir / templates_dir(s) FIND_FIRST / SupportGenerator with
+     and without support_templates_dir FIND_ALL / builder over fs-only, fs+package, FIND_FIRST, DictLoader); the model side
+     is both the hand-written `construct` and the state machine over the REGENERATED statement list (`envsm`), which also
+     reports the final `_allow_replacements`.
 
 Failing-input search: the statements of the property as independent predicates over the implementation only
 (`expected_*` below never look at the model).
@@ -296,13 +306,16 @@ def run(ctx: common.Ctx):
         phase_t["_"] = now
         ctx.extra["phase_seconds"] = {k: v for k, v in phase_t.items() if k != "_"}
 
-    ctx.rule = ("C: every class of the running PyDSDL x every assignment of the nearest K classes of its chain to {none,user,built-in,both} "
+    ctx.rule = ("C2: every class x (class, ancestor) x every distribution of their templates over 1-3 user directories (+ package; quick: package only for <= 2 directories); "
+                "G: every built-in name x generator/builder, a category-covering slice x 8 further loader configurations.  "
+                "C: every class of the running PyDSDL x every assignment of the nearest K classes of its chain to {none,user,built-in,both} "
                 "(K=4 quick, K=7 = the whole chain up to Any thorough; farther classes random) in a scratch user dir + scratch package, cold and after random "
                 "warm-up look-ups, loaders with both/one source; D: random synthetic hierarchies; F: every instance test x every PyDSDL "
                 "object of a parsed generated namespace; G: additional filters/tests/globals drawn from built-in, prefixed, reserved and "
                 "fresh names.  Non-trivial = at least one template present / a colliding or prefixed name; distinct by full input.")
     ctx.assumptions = [
-        "Jinja's FileSystemLoader/PackageLoader list and load files as documented (list_templates sorted); the model starts from their listings",
+        "Jinja's PackageLoader lists and loads files as documented; FileSystemLoader.list_templates/get_source over a directory list ARE modelled (union, sorted; first hit) and tied in stream C2; streams C/D/F still start from the loaders' listings",
+        "user directories in the enumeration stream hold regular files only (no symbolic-linked sub-directories, no directory named *.j2: get_templates() globs, the loader walks)",
         "template sets do not change between look-ups on one loader object",
         "class names are ASCII (the translator refuses anything else)",
         "user callables are plain functions (no language-filter annotation)",
@@ -332,7 +345,11 @@ def run(ctx: common.Ctx):
             if st[0] == "setAllow":
                 walk(st[1])
         ctx.extra["allow_flag_loader_attributes_read"] = sorted(set(reads))
+        inputs = []
+        for a in ec["assignments"]:
+            env_ctor.expr_inputs(a["expr"], inputs)
         ctx.extra["translator_env_ctor"] = {"allow_assignments": [f"{a['file']}:{a['line']} {a['func']}" for a in ec["assignments"]],
+                                            "allow_inputs": sorted(set(inputs)),
                                             "constructor_steps": [s_[0] for s_ in ec["ctor_steps"]], "rewritten": ec["_rewritten"]}
     except Exception as e:  # tie broken
         ctx.broken.append({"kind": "translator", "which": "env_ctor", "error": f"{type(e).__name__}: {e}"})
@@ -396,9 +413,14 @@ def run(ctx: common.Ctx):
     type_classes = [c for c in under_any if issubclass(c, pydsdl.SerializableType)]
     attr_classes = [c for c in under_any if issubclass(c, pydsdl.Attribute)]
     want = {}
-    for c in type_classes + attr_classes:
+    # ... and whatever else the code registers instance tests for (e.g. expression-value classes): every class a test is
+    # bound to claims its name and its alias; no name may be claimed by two classes
+    also = sorted({bound_class(f) for f in code_tests.values() if bound_class(f) is not None} - set(type_classes) - set(attr_classes),
+                  key=lambda c: c.__name__)
+    for c in type_classes + attr_classes + also:
         for nm in (c.__name__, oracle_alias(c.__name__)):
             want.setdefault(nm, set()).add(c.__name__)
+    ctx.count("other_classes_with_instance_tests", len(also))
     for nm, cls_names in sorted(want.items()):
         ctx.case(("testname", nm), True)
         if len(cls_names) > 1:
@@ -913,12 +935,19 @@ def run(ctx: common.Ctx):
 
     # ---- F2. the product path: DSDLCodeGenerator.filter_type_to_template(value) on the parsed objects ------------------
     f2_lines, f2_impl, f2_meta = [], [], []
-    for variant in ["builtin"] + ["userdir"] * (6 if ctx.quick else 40):
+    for variant in ["builtin"] + ["userdir"] * (6 if ctx.quick else 40) + ["userdirs"] * (8 if ctx.quick else 60):
         if variant == "userdir":
             src = srcs[0]
             for cl in table_classes:
                 src.set(cl.__name__, rng.choice((USER, BUILTIN, BOTH)) if rng.random() < 0.3 else NONE)
             g = DSDLCodeGenerator(root_ns, templates_dir=src.usr)
+        elif variant == "userdirs":
+            # templates_dir=[common, specific, ...]: class templates spread over 2-3 directories
+            ms = msets[rng.choice((2, 3))]
+            for cl in table_classes:
+                if issubclass(cl, pydsdl.Any):
+                    ms.set(cl.__name__, frozenset(rng.sample(range(len(ms.dirs)), rng.randint(1, len(ms.dirs)))) if rng.random() < 0.3 else frozenset())
+            g = DSDLCodeGenerator(root_ns, templates_dir=list(ms.dirs))
         else:
             g = generator
         ld = g.dsdl_loader
@@ -937,19 +966,23 @@ def run(ctx: common.Ctx):
         f2_impl.append(impl)
         f2_meta.append({"variant": variant, "fs": fs, "pkg": None if pk is None else [x for x in pk if x.endswith(SUFFIX)], "objects": [type(v).__name__ for v in seq]})
         ustems = {pathlib.PurePosixPath(x).stem for x in (fs or []) if x.endswith(SUFFIX)}
+        if variant == "userdirs":
+            ustems = ms.user_stems()   # from the harness' own bookkeeping of ALL directories, not from the loader's listing
         bstems = {pathlib.PurePosixPath(x).stem for x in (pk or []) if x.endswith(SUFFIX)}
-        if variant == "userdir" and pk is not None:
+        if variant == "userdirs":
+            f2_lines[-1] = "seqd @ " + dirs_field([ms.listing(i) for i in range(len(ms.dirs))]) + " " + opt_files(pk) + " " + ",".join(str(index_of[type(v)]) for v in seq)
+        if variant in ("userdir", "userdirs") and pk is not None:
             ctx.fail({"kind": "generator-uses-both-sources"}, "DSDLCodeGenerator with a templates directory still searches the package", {"stream": "generator"})
         for v, got in zip(seq, impl):
             exp = expected_resolution(type(v), ustems, bstems)
-            ctx.case(("filter_type_to_template", variant, tuple(sorted(ustems)) if variant == "userdir" else lctx.get_target_language().name, type(v).__name__), exp is not None)
+            ctx.case(("filter_type_to_template", variant, tuple(sorted(ustems)) if variant != "builtin" else lctx.get_target_language().name, type(v).__name__), exp is not None)
             ctx.count("generator-" + variant)
             if (None if exp is None else exp[0] + SUFFIX) != got:
                 beyond = got is not None and pathlib.PurePosixPath(got).stem in by_name and \
                     pathlib.PurePosixPath(got).stem not in [c.__name__ for c in chain_to_any(type(v))]
                 ctx.fail({"kind": "chain-passes-any", "stem": pathlib.PurePosixPath(got).stem} if beyond else
                          {"kind": "stray-file-taken-as-template"} if got is not None and pathlib.PurePosixPath(got).stem not in by_name else
-                         {"kind": "not-nearest-class", "via": "filter_type_to_template"},
+                         {"kind": "not-nearest-class", "via": "filter_type_to_template", **({"user_directories": len(ms.dirs)} if variant == "userdirs" else {})},
                          f"filter_type_to_template({type(v).__name__} object) gave {got}, nearest class with a template is {exp}",
                          {"stream": "generator", "variant": variant, "user_stems": sorted(ustems), "builtin_stems": sorted(bstems), "object": type(v).__name__, "result": got})
     for ln, impl, meta, m in zip(f2_lines, f2_impl, f2_meta, ask(f2_lines)):
@@ -1179,6 +1212,17 @@ def run_multidir_stream(ctx, ask, table_classes, index_of, by_name, jenv):
             lines.append(ln)
             impls.append(im)
         nconf += 1
+    # DSDLTemplateLoader.__init__: which Jinja loaders exist, for both policies x with/without directories x with/without package
+    from nunavut.jinja.loaders import DSDLTemplateLoader
+    from nunavut._utilities import ResourceSearchPolicy
+    for pol, pname in ((ResourceSearchPolicy.FIND_FIRST, "first"), (ResourceSearchPolicy.FIND_ALL, "all")):
+        for with_dirs in (0, 1):
+            for with_pkg in (0, 1):
+                ld = DSDLTemplateLoader(templates_dirs=list(msets[2].dirs) if with_dirs else None,
+                                        package_name_for_templates=msets[2].pk.pkgname if with_pkg else None, search_policy=pol)
+                lines.append(f"ldr {pname} {with_dirs} {with_pkg}")
+                impls.append(("1" if ld._fsloader is not None else "0") + ("1" if ld._package_loader is not None else "0"))
+                ctx.case(("loader-sources", pname, with_dirs, with_pkg), True)
     # FileSystemLoader.list_templates itself: names in arbitrary order in, `sorted(set(...))` out
     for n, ms in msets.items():
         ld = ms.loader("fs")
@@ -1196,6 +1240,9 @@ def run_multidir_stream(ctx, ask, table_classes, index_of, by_name, jenv):
             if isinstance(pm, str) or pm[0] != impl[0] or pm[1] != impl[1]:
                 ctx.disagree("type_to_template-dirs", ln if len(ln) < 700 else ln[:700] + "...",
                              pm if isinstance(pm, str) else {"results": pm[0], "cache": sorted(pm[1].items())}, {"results": impl[0], "cache": sorted(impl[1].items())})
+        elif ln.startswith("ldr "):
+            if m != impl:
+                ctx.disagree("loader-sources", ln, m, impl)
         elif ln.startswith("enum "):
             model = [] if m == "~" else sorted(e.split(":")[0] + ":" + dec(e.split(":")[1]) for e in m.split(","))
             if model != impl:
@@ -1344,6 +1391,9 @@ class EntryRef:
         self.allow_possible = name.startswith("builder")
         ld = self.env.loader
         self.loader_object = ld
+        self.loader_summary = ("user-directories+package" if getattr(ld, "_fsloader", None) is not None and getattr(ld, "_package_loader", None) is not None
+                               else "user-directories-only" if getattr(ld, "_fsloader", None) is not None
+                               else "package-only" if getattr(ld, "_package_loader", None) is not None else type(ld).__name__)
         self.loader = {"class": type(ld).__name__, "fs": getattr(ld, "_fsloader", None) is not None, "package": getattr(ld, "_package_loader", None) is not None}
 
     def category(self, kind, n, reserved, lang_globals):
@@ -1501,7 +1551,9 @@ def run_env_stream(ctx, ask, root_ns, lctx, corpus):
             or any(strip_prefix(n) in ref.names["t"] for n in ut)
         ctx.case(("env", lang, entry, allow, tuple(ug), tuple(uf), tuple(ut)), collides or any("_" in n for n in uf + ut))
         ctx.count("env-entry=" + entry + (",allow" if allow else ""))
-        rp = {"stream": "env", "language": lang, "entry": entry, "loader": ref.loader, "allow": allow, "globals": ug, "filters": uf, "tests": ut}
+        rp = {"stream": "env", "language": lang, "entry": entry, "loader": ref.loader, "allow": allow, "globals": ug, "filters": uf, "tests": ut,
+              "allow_replacements_assigned_at": ctx.extra.get("translator_env_ctor", {}).get("allow_assignments"),
+              "allow_replacements_reads_inputs": ctx.extra.get("translator_env_ctor", {}).get("allow_inputs")}
         if res[0] == "err":
             impls.append(("err", res[1], res[2]))
             ctx.count("env-raised-" + res[1])
@@ -1531,8 +1583,8 @@ def run_env_stream(ctx, ask, root_ns, lctx, corpus):
                             if entry not in BASE_ENTRIES:
                                 # the same collision is refused over another loader configuration?
                                 base = build("generator" if not entry.startswith("builder") else "builder", False, ug, uf, ut)[0]
-                                key["loader_configuration"] = entry
-                                key["refused_without_it"] = base[0] == "err"
+                                key["loader"] = ref.loader_summary
+                                key["refused_over_the_default_loader"] = base[0] == "err"
                             ctx.fail(key,
                                      f"additional {'global' if kind == 'g' else 'filter' if kind == 'f' else 'test'} {k!r} replaced the built-in of that name without an error"
                                      f" (environment created through {entry}, loader {ref.loader})", {**rp, "replaced": k})
@@ -1553,7 +1605,7 @@ def run_env_stream(ctx, ask, root_ns, lctx, corpus):
                 if n in lang_globals and not isinstance(env.globals.get(n), Marker):
                     ctx.count("user-global-silently-dropped-by-language-global")
         metas.append((entry, allow, ug, uf, ut))
-    both = [(ln, impl, meta, None) for ln, impl, meta in zip(lines, impls, metas)] + \
+    both = [(ln, impl, meta, None) for ln, impl, meta in zip(lines, impls, metas) if meta[0] in BASE_ENTRIES] + \
         [(ln, impl, meta, fl) for ln, impl, meta, fl in zip(sm_lines, impls, metas, sm_flags)]
     for (ln, impl, meta, flag), m in zip(both, ask([b[0] for b in both])):
         if m is None:
@@ -1621,6 +1673,22 @@ def replay(ctx, path):
             print(json.dumps({"sequence_results": warm, "cold_result": cold[0], "expected_nearest": exp}))
             got_stem = None if cold[0] is None else stem(cold[0])
             return 1 if (warm[-1] != cold[0] or got_stem != (exp[0] if exp else None)) else 0
+        if rp.get("stream") == "lookup-dirs":
+            from nunavut.jinja.jinja2 import Environment
+            ms = MultiSources(ctx, len(rp["user_dirs"]))
+            for i, files in enumerate(rp["user_dirs"]):
+                for rel in files:
+                    ms.add_file(i, rel)
+            for rel in rp["builtin_templates"]:
+                ms.pk.set(pathlib.PurePosixPath(rel).stem, BUILTIN)
+            seq = [by_name[n] for n in rp["lookups"]]
+            ld = ms.loader(rp["mode"])
+            res = run_lookups(ld, seq)
+            exp = expected_resolution(seq[-1], ms.user_stems(), set(ms.pk.builtin) if ld._package_loader is not None else set())
+            got_stem = None if res[-1] is None else pathlib.PurePosixPath(res[-1]).stem
+            listed = sorted(pathlib.Path(os.path.normpath(str(x))).name for x in ld.get_templates())
+            print(json.dumps({"user_directories": rp["user_dirs"], "results": res, "expected_nearest": exp, "get_templates_lists": listed}))
+            return 1 if got_stem != (exp[0] if exp else None) else 0
         if rp.get("stream") == "tests-short-lived":
             import random
             from nunavut.lang import LanguageContextBuilder
@@ -1687,21 +1755,15 @@ def replay(ctx, path):
             from nunavut.jinja import DSDLCodeGenerator
             lctx = LanguageContextBuilder(include_experimental_languages=True).set_target_language(rp.get("language", "c")).create()
             root_ns = nunavut.build_namespace_tree(pydsdl.read_namespace(str(ns_dir), []), str(ns_dir), str(ctx.scratch / "out"), lctx)
-            from nunavut.jinja import CodeGenEnvironmentBuilder
             from nunavut.jinja.environment import CodeGenEnvironment
-            from nunavut.jinja.loaders import DSDLTemplateLoader
-            builder = rp.get("entry") == "builder" or rp.get("allow")
             allow = bool(rp.get("allow"))
+            entry = rp.get("entry", "generator")
+            if allow and not entry.startswith("builder"):
+                entry = "builder"
+            factory = env_entries(root_ns, lctx, env_template_dirs(ctx))[entry]
 
             def make(g, f, t):
-                if not builder:
-                    return DSDLCodeGenerator(root_ns, additional_globals=g, additional_filters=f, additional_tests=t)._env
-                b = CodeGenEnvironmentBuilder(DSDLTemplateLoader(package_name_for_templates="nunavut.lang.c"), lctx)
-                b.set_allow_filter_test_or_use_query_overwrite(allow)
-                for add, d in ((b.add_globals, g), (b.add_filters, f), (b.add_tests, t)):
-                    if d:
-                        add(**d)
-                return b.create()
+                return factory(allow, g, f, t)
 
             ref = make(None, None, None)
             mk = lambda names: {n: Marker(i) for i, n in enumerate(names)} or None  # noqa: E731
